@@ -326,6 +326,22 @@ theorem refused_untouched (op : Op) (x : Row) : (run op x).err ≠ none → (run
   · exact refused_untouched_of_guardsFirst x _ guards_before_effects_editpost
   · exact refused_untouched_of_guardsFirst x _ guards_before_effects_crosspost
 
+/-! ### one step of history: the word an accepted post leaves behind -/
+
+/-- After any accepted post (DoPostArticle / CrossPost tail: AddCooldownTime, AddPosttimes), for as long as the
+cool-down time of the word lasts, a non-sysop is refused on every board with more than 4000 users
+(first row of the flood table).  That the time part lasts ~5 minutes is tied by the `flood` ops only. -/
+theorem busy_board_refuses_next_post (u : User) (b b' : Board) (w : UInt32) (now now' : Nat)
+    (hs : ¬ Spec.sysop u) (hn : 4000 < b'.nuser) (hact : now' ≤ Spec.cdTime (afterPost b w now)) :
+    checkCooldown u b' (afterPost b w now) now' = true := by
+  rw [cooldown_eq_spec]
+  refine ⟨hact, hs, Or.inr (Or.inr ⟨(4000, 1), by simp [Spec.floodLimits], hn, ?_⟩)⟩
+  unfold afterPost
+  exact post_counts _
+
+/-- non-vacuity: a post at `fixedNow` on a board with 4001 users opens a window that is still running 100 s later. -/
+example : fixedNow + 100 ≤ Spec.cdTime (afterPost { plainBoard nameSrc with nuser := 4001 } 0 fixedNow) := by decide
+
 /-! ### non-vacuity: the base row of the decision table is accepted by all four operations and satisfies the rules -/
 
 def baseRow : Row := { witnessUnverified with u := { witnessUnverified.u with level := 0o31 } }
